@@ -39,6 +39,7 @@ struct acc_t
     std::atomic<int> granted{0};
     std::atomic<int> released{0};
     std::atomic<int> releasing{0};    // set right before the release (duel histories synchronise on it)
+    std::atomic<int> ready{0};        // duel: the operation state is connected, only start() is left
     std::optional<mutex_t::read_access_type> rw_held, rw_copy;
     std::optional<mutex_t::readwrite_access_type> ww_held;
 };
@@ -141,14 +142,7 @@ int main(int argc, char** argv)
                 for (acc_t* a : mine)
                 {
                     if (duel && a->i > 1)
-                    {
-                        // sweep the start across the release of the previous access
-                        if (a->delay & 1)
-                            while (!acc[a->i - 2]->granted.load()) {}
-                        else
-                            while (!acc[a->i - 2]->releasing.load()) {}
-                        for (int d = 0; d < a->hold * a->delay * 25; ++d) asm volatile("" ::: "memory");
-                    }
+                        while (!acc[a->i - 2]->granted.load()) {}
                     for (int d = 0; d < a->delay * 30; ++d) asm volatile("" ::: "memory");
                     if (a->action == 1)
                     {
@@ -164,15 +158,24 @@ int main(int argc, char** argv)
                         wops.push_back(std::unique_ptr<w_op>(
                             new w_op(ex::connect(std::move(*a->ws), recv<true>{a}))));
                         a->ws.reset();
-                        ex::start(*wops.back());
                     }
                     else
                     {
                         rops.push_back(std::unique_ptr<r_op>(
                             new r_op(ex::connect(std::move(*a->rs), recv<false>{a}))));
                         a->rs.reset();
-                        ex::start(*rops.back());
                     }
+                    if (duel && a->i > 1)
+                    {
+                        // rendezvous with the releaser of the previous access: both sides have logged their
+                        // call records and prepared everything; only the raw start() / release are left and
+                        // are swept across each other within nanoseconds
+                        a->ready = 1;
+                        while (!acc[a->i - 2]->releasing.load()) {}
+                        for (int d = 0; d < a->hold * 6; ++d) asm volatile("" ::: "memory");
+                    }
+                    if (a->is_w) ex::start(*wops.back());
+                    else ex::start(*rops.back());
                     ++progress;
                 }
                 // release granted accesses (in any order in which they get granted)
@@ -192,9 +195,11 @@ int main(int argc, char** argv)
                             a->rw_held.reset();
                             if (a->rw_copy->get() < 0) std::abort();
                         }
-                        a->releasing = 1;
-                        for (int d = 0; d < (duel ? a->delay * 20 : 0); ++d) asm volatile("" ::: "memory");
                         ev("release").i("i", a->i).done();
+                        if (duel && a->i < n && acc[a->i]->action != 1)
+                            while (!acc[a->i]->ready.load()) {}    // the next access is ready to start
+                        a->releasing = 1;
+                        for (int d = 0; d < (duel ? a->delay * 4 : 0); ++d) asm volatile("" ::: "memory");
                         a->rw_held.reset();
                         a->rw_copy.reset();
                         a->ww_held.reset();
